@@ -163,6 +163,9 @@ def c14(tier):
                                                                          followups=2, complete_flag=[True]), **_HO)]
 
 
+HR = "harness.h_resubmit"
+
+
 def c16(tier):
     q = [_ob("H-hooks/hpc", H, "h_submit", dict(shapes=["chain2", "indep2"], bss=[1, 2], maxns=[None], hooks=True, fails=False,
                                                 cancel_flags=False), **_HO),
@@ -172,13 +175,12 @@ def c16(tier):
                                                   procs=1, hook_rcs=[0, 1]), **_HO),
          _ob("H-hooks/hpc-failing", H, "h_submit", dict(shapes=["chain2"], bss=[1], maxns=[None], hooks=True, fails=True,
                                                         hook_rcs=[0, 1]), **_HO)]
+    q.append(_ob("H-hooks/resubmit", HR, "h_resubmit", dict(shapes=["chain2"], bss=[1, 2], incomplete=False, second=True, hooks=True,
+                                                            flagsets=[[], ["--successful"]]), **_HO))
     if tier == "quick":
         return q
     return q + [_ob("H-hooks/hpc-wide", H, "h_submit", dict(shapes=["chain3", "fork3", "join3"], bss=[1, 2], maxns=[None, 1],
                                                             hooks=True, fails=False, G=2, cancel_flags=False), **_HO)]
-
-
-HR = "harness.h_resubmit"
 
 
 def c13(tier):
